@@ -186,4 +186,71 @@ theorem cinv_step {c : Cfg} (hc : CInv c) (i : Nat) : CInv (c.step i) := by
           exact ⟨a, List.mem_append_left _ (mem_set_of_ne hj hji), hag, has⟩
       logOK := sp.logOK hc.logOK }
 
+/-! ## reachable configurations -/
+
+/-- any sequence of micro-steps of any goroutines -/
+inductive Reachable (p : Prog) : Cfg → Prop
+  | init : Reachable p (Cfg.init p)
+  | step {c : Cfg} (i : Nat) : Reachable p c → Reachable p (c.step i)
+
+theorem doEnter_spawned (g : GS) (k : List Frame) (id : Nat) (ctch : Bool) (p : Prog) (w : World) :
+    (doEnter g k id ctch p w).spawned = none := by
+  simp only [doEnter]
+  cases dwcEnter g.gid (newCtx { loader := [0] } w).1 (newCtx { loader := [0] } w).2 with
+  | none => rfl
+  | some r => rfl
+
+theorem init_step_succ (p : Prog) (i : Nat) : (Cfg.init p).step (i + 1) = Cfg.init p := by
+  simp [Cfg.step, Cfg.init]
+
+/-- after the root goroutine's first micro-step (`pcore.Do` entered) the invariant holds -/
+theorem cinv_init1 (p : Prog) : CInv ((Cfg.init p).step 0) := by
+  have hinv : Inv ({} : World) := inv_init []
+  have sp := doEnter_spec (gid := 0) (ctx0 := 0) (k0 := [.run (.dodo 1000 p) 0, .endRoot]) (k := [.endRoot]) (id := 1000)
+    (ctch := false) (p := p) (w := {}) hinv rfl (Nat.zero_lt_one) ⟨rfl, rfl⟩
+  have hs := doEnter_spawned ⟨0, 0, true, false, [.run (.dodo 1000 p) 0, .endRoot]⟩ [.endRoot] 1000 false p {}
+  have e : (Cfg.init p).step 0 =
+      { w := (doEnter ⟨0, 0, true, false, [.run (.dodo 1000 p) 0, .endRoot]⟩ [.endRoot] 1000 false p {}).w
+        gs := [(doEnter ⟨0, 0, true, false, [.run (.dodo 1000 p) 0, .endRoot]⟩ [.endRoot] 1000 false p {}).g] } := by
+    simp [Cfg.step, Cfg.init, stepG, hs]
+  rw [e]
+  generalize doEnter ⟨0, 0, true, false, [.run (.dodo 1000 p) 0, .endRoot]⟩ [.endRoot] 1000 false p {} = r at sp
+  exact {
+    winv := sp.inv
+    nopend := sp.pend
+    gok := by intro g hg; simp at hg; rw [hg]; exact sp.gok
+    gidNodup := by simp
+    ctx0Uniq := by intro a ha b hb _ _ _; simp at ha hb; rw [ha, hb]
+    cover := by
+      intro gid hne
+      have hg : gid = 0 := by
+        by_cases h : gid = 0
+        · exact h
+        · exact absurd (by rw [sp.loc.tls gid h]) hne
+      exact ⟨r.g, by simp, by rw [sp.gid, hg], sp.started⟩
+    logOK := sp.logOK (fun _ h => by simp at h) }
+
+/-- the invariant holds in every reachable configuration (the initial one excepted: goroutine 0 has no context yet) -/
+theorem reachable_inv {p : Prog} {c : Cfg} (h : Reachable p c) : c = Cfg.init p ∨ CInv c := by
+  induction h with
+  | init => exact Or.inl rfl
+  | step i _ ih =>
+    rcases ih with ih | ih
+    · subst ih
+      cases i with
+      | zero => exact Or.inr (cinv_init1 p)
+      | succ i => exact Or.inl (init_step_succ p i)
+    · exact Or.inr (cinv_step ih i)
+
+/-- a schedule of micro-steps given by goroutine indices -/
+def Cfg.steps : List Nat → Cfg → Cfg
+  | [], c => c
+  | i :: is, c => Cfg.steps is (c.step i)
+
+theorem reachable_steps {p : Prog} : ∀ (is : List Nat) {c : Cfg}, Reachable p c → Reachable p (Cfg.steps is c) := by
+  intro is
+  induction is with
+  | nil => intro c h; exact h
+  | cons i is ih => intro c h; exact ih (Reachable.step i h)
+
 end Pcore.Tls
